@@ -1,4 +1,4 @@
-import sys; sys.path.insert(0,'/tmp/fixes'); from edit import rep
+import sys; sys.path.insert(0,'/verif/tools'); from edit import rep
 rep('segno/encoder.py', """    def divide_into_chunks(data, num):
         k, m = divmod(len(data), num)
         return [data[i * k + min(i, m):(i + 1) * k + min(i + 1, m)] for i in range(num)]
